@@ -12,7 +12,7 @@
 """
 import random
 
-from harness import core, gen_lang, langcheck, lang_props, runner, tlc
+from harness import core, gen_lang, lang_ast, langcheck, lang_props, runner, tlc
 
 TEXTS = {
     'valid': ['hue 5 set all', 'assign x 3 repeat x begin on all end print x', 'time at 8:00 wait print "done"',
@@ -200,6 +200,20 @@ def snapshot_pop(world, pop):
     return out
 
 
+def late_assign_trees():
+    A = lang_ast
+    never = ('bin', '>', A.num('1'), A.num('2'))
+    declare = lambda name: {'op': 'if', 'e': never, 'then': [{'op': 'assign', 'name': name, 'e': A.num('0')}], 'else': None}
+    show = lambda name: {'op': 'print', 'nl': True, 'e': ('var', name)}
+    return [
+        [declare('seen'), show('seen'), {'op': 'assign', 'name': 'seen', 'e': A.num('42')}, show('seen')],
+        [declare('seen'), declare('w'), show('w'), show('seen'), {'op': 'assign', 'name': 'w', 'e': A.string('later')},
+         {'op': 'assign', 'name': 'seen', 'e': ('bin', '+', A.num('1'), A.num('2'))}, show('w')],
+        [declare('seen'), {'op': 'if', 'e': ('bin', '<', A.num('1'), A.num('2')), 'then': [show('seen')], 'else': None},
+         {'op': 'assign', 'name': 'seen', 'e': A.num('7')}, {'op': 'assign', 'name': 'w', 'e': ('var', 'seen')}, show('w')],
+    ]
+
+
 def run_histories(report, rng):
     from bardolph.controller.script_job import ScriptJob
     from bardolph.vm.instruction import Instruction
@@ -259,6 +273,29 @@ def run_histories(report, rng):
         job2.load_string(other['text'])
         if job2.program is not None:
             execute(world, job2, other, 'another job after %s' % profile)
+        world.close()
+
+    # scripts that read a variable on a path on which this run has not given it a value yet (Lang: the value is None):
+    # only a machine that still holds the previous run's variables can tell a second run from a first
+    for k, stmts in enumerate(late_assign_trees()):
+        pop = gen_lang.gen_population(random.Random(40 + k), 4, min_lights=2)
+        rec = {'id': 0, 'seed': k, 'profile': 'late-assign', 'text': lang_ast.unparse(stmts, lang_ast.Style()), 'prog': lang_ast.flatten(stmts),
+               'pop': pop, 'rank': gen_lang.ranks(pop, ['Nowhere', 'NoGroup', 'NoLoc']), 'strictf': False, 'budget': 4000}
+        world = runner.World(pop)
+        job = ScriptJob()
+        job.load_string(rec['text'])
+        if job.program is None:
+            problems.append((rec, 'compile', 'valid script rejected: ' + job.compile_errors.strip()))
+        else:
+            execute(world, job, rec, 'first run')
+            execute(world, job, rec, 'second run after completion')
+            execute(world, job, rec, 'stopped', stop_at=12)
+            execute(world, job, rec, 'run after a stop at instruction 12')
+            other = late_assign_trees()[(k + 1) % len(late_assign_trees())]
+            rec2 = dict(rec, text=lang_ast.unparse(other, lang_ast.Style()), prog=lang_ast.flatten(other))
+            job.load_string(rec2['text'])
+            if job.program is not None:
+                execute(world, job, rec2, 'same job, another script that reads the same names before assigning them')
         world.close()
 
     # the same job object (one Machine) after a run that failed or was stopped half-way through a statement
